@@ -13,6 +13,9 @@
 \*                          client's operations (all behaviours are driven)
 \*            gen:list      p1 = the owner lists, p3 = the owner deletes, p2 = another client claims, 1 lookup process
 \*            gen:upd       p1 = the owner updates (inactive / expired) or deletes, p3 = the owner deletes, p2 claims
+\*            gen:updf      Serial, Names = {n1, n2}, p1 (c1) creates / updates / deletes twice, p2 (c2) claims; UpdFields = every field
+\*                          of the record as the changed one (status, expiry, target, description, created-at; client, subdomain,
+\*                          base domain, full domain - the last two with the other name as value), 1 lookup
 \*            gen:rdf       Serial, Create/Delete/List/Update, 2 calls each, 1 lookup; ReadFaults: any ONE storage operation
 \*                          of a listing, of a host lookup or of a stand-alone update fails
 \*            gen:shadow    Serial, one repository owner (created, made inactive / expired) + one legacy mapping of the
@@ -26,7 +29,7 @@
 \*                          named deviations (on the present code they diverge and are judged as far as they go)
 \*            mc:guess (Guess = TRUE), mc:conc3x2 (2 calls/process, no lookup process), mc:conc2:2names (+ failing
 \*            write), mc:seq:3ops, mc:spell:3ops
-\* Invariants: OneOwner RouteOK OwnerOnly LockHeld OnlyHolderUnlocks LookupPure ListPure UpdateClaimsNothing RegisterAtomic
+\* Invariants: OneOwner RouteOK OwnerOnly LockHeld OnlyHolderUnlocks LookupPure ListPure UpdateClaimsNothing UpdateKeepsIdentity RegisterAtomic
 \* Consistent Claimable NoIndexTheft NoShadow LegacyInactiveRejects; configurations with legacy mappings use OneOwnerX / RouteOKX
 \* (the two legacy deviations are recorded known findings and must not hide other routes; NoShadow and LegacyInactiveRejects are
 \* never excused). ExpiryStored is checked when the code under test has the C19-3 repair (TTLRollback = TRUE, probed by the driver).
@@ -55,6 +58,7 @@ CONSTANTS
   CreateFaults = @@CREFAULTS@@
   ReadFaults = @@READFAULTS@@
   TTLRollback = @@TTLROLLBACK@@
+  UpdFields = @@UPDFIELDS@@
   LegStatus = @@LEGSTATUS@@
   OnlyList = @@ONLYLIST@@
   Emit = @@EMIT@@
